@@ -15,6 +15,7 @@ SEEDS = {
  'C05a': ('C05', 'backmp11 is_event_deferred_visitor: |= became =', 'two active deferring states, the later-visited one with a conditional is_event_deferred returning false'),
  'C05b': ('C05', 'back/back11 do_handle_prio_msg_queue_deferred_queue: new deferral cycle only if handled == HANDLED_TRUE (was: TRUE bit set)', 'two regions: one takes the event and leaves the deferring state while the sibling guard-rejects it (result 3)'),
  'C06a': ('C06', 'back do_process_event: wrong De Morgan on the no_transition guard', 'process_event called directly on a contained submachine (or an enqueued unmatched event)'),
+ 'C06c': ('C06', 'back constructors taking a states expression: fill_states(this) moved before set_states(expr)', 'outer machine constructed with states_ << Sub(): the user instance overwrites the containment mark, the submachine reports no_transition itself'),
  'C07a': ('C07', 'back chain_row: bit test replaced by equality tests again', 'two-region submachine, one region takes while the sibling guard-rejects, outer row on the same event'),
  'C07b': ('C07', 'backmp11 favor_compile_time state_dispatch_table::dispatch: early return only if the submachine result equals TRUE or DEFERRED', 'submachine answers TRUE|GUARD_REJECT (one region takes, a sibling rejects) and the enclosing machine has a row on the submachine for the event'),
  'C08a': ('C08', 'ShallowHistoryImpl::history_exit: store guarded by a comparison against the wrong array', 'three entries of the submachine, region back in its initial state at the second exit'),
